@@ -1,9 +1,12 @@
 """C17: connection-level check (see DESIGN section 6 / C17): scenario families on the real endpoints, recorded traces
 validated against RSocket.tla by TLC; design-level model checking of the same monitors in RSocketMC.tla."""
-from . import conn, families, mc
+from . import conn, families, mc, lifecycle
 
 
 def run(v):
     mc.run_for(v, 'C17')
+    # Lifecycle.tla: every sequence of reconnect / close / request / loss / racing calls within the constants, replayed on the real
+    # client; the recorded paths are judged by the monitors of RSocket.tla
+    lifecycle.check(v, ('C17.',))
     # "requests issued afterwards are served": with the right payloads - nothing of the old connection may leak into them
     conn.check(v, 'C17', families.FAMILIES['C17'], also=('C01.intact', 'C01.deliver_is_next', 'C01.correlation'))
